@@ -173,14 +173,24 @@ inline void InputPcapJumbo::recvPacket()
       uint16_t udp_port = 0;
       const uint8_t* udp_data = NULL;
       size_t udp_data_len = 0;
-      bool new_pkt = jumbo_.new_fragment(pkt_data, header->caplen, &udp_port, &udp_data, &udp_data_len);
+      // skip the vlan tag (the filter has checked that it is there), so that the ethernet type and the
+      // ip header are where new_fragment() expects them.
+      size_t vlan_bytes = (input_param_.use_vlan ? VLAN_HDR_LEN : 0);
+      if (header->caplen < vlan_bytes)
+      {
+        continue;
+      }
+
+      bool new_pkt = jumbo_.new_fragment(pkt_data + vlan_bytes, header->caplen - vlan_bytes, &udp_port, &udp_data, &udp_data_len);
       if (new_pkt)
       {
-        if ((udp_port == input_param_.msop_port) || (udp_port == input_param_.difop_port))
+        // strip the user layer and the tail layer from the datagram, as the other inputs do.
+        size_t layers_bytes = (size_t)input_param_.user_layer_bytes + input_param_.tail_layer_bytes;
+        if (((udp_port == input_param_.msop_port) || (udp_port == input_param_.difop_port)) && (udp_data_len > layers_bytes))
         {
           std::shared_ptr<Buffer> pkt = cb_get_pkt_(IP_LEN);
-          memcpy(pkt->data(), udp_data, udp_data_len);
-          pkt->setData(0, udp_data_len);
+          memcpy(pkt->data(), udp_data + input_param_.user_layer_bytes, udp_data_len - layers_bytes);
+          pkt->setData(0, udp_data_len - layers_bytes);
           pushPacket(pkt);
         }
       }
